@@ -8,7 +8,7 @@ def strToOp : List (Char × String) := [('M', "MATCH"), ('I', "INSERTION"), ('D'
 reference entry is a gap, segment entry is a gap).  Members not listed raise ValueError. -/
 def readerTable : List (String × Bool × Bool × Bool × Bool × Bool) := [("MATCH", true, true, false, false, false), ("EQUAL", true, true, false, false, false), ("DIFFERENT", true, true, false, false, false), ("INSERTION", false, true, false, true, false), ("DELETION", true, false, false, false, true), ("INTRON", true, false, false, false, true), ("SOFT_CLIP", false, true, true, false, false), ("HARD_CLIP", false, false, true, false, false)]
 /-- `operations[<mask>] = CigarOp.X` assignments of `write_alignment_to_cigar` (and the `np.full` default). -/
-def writerTable : List (String × String) := [("default", "MATCH"), ("insertion_mask", "INSERTION"), ("deletion_mask", "DELETION"), ("intron_mask", "INTRON"), ("equal_mask & match_mask", "EQUAL"), ("~equal_mask & match_mask", "DIFFERENT")]
+def writerTable : List (String × String) := [("default", "MATCH"), ("mask1", "INSERTION"), ("mask2", "DELETION"), ("mask3", "INTRON"), ("mask4", "EQUAL"), ("mask5", "DIFFERENT")]
 /-- `clip_op = A if <test> else B` -/
 def clipOp : String × String × String := ("hard_clip", "HARD_CLIP", "SOFT_CLIP")
 /-- default arguments of `write_alignment_to_cigar` -/
@@ -27,8 +27,8 @@ def trimUpper : Int := -1
 def trimPlus : Int := 1
 /-- the printer appends `str(count)` first, then the symbol -/
 def printerCountFirst : Bool := true
-def readerInit : List (String × String) := [("ref_pos", "position"), ("seg_pos", "0"), ("i", "0")]
+def readerInit : List (String × String) := [("refCursor", "position"), ("segCursor", "0"), ("row", "0")]
 /-- literals, guards, defaults, step order and exception classes read from alignment.py, fasta/convert.py (ast) and
 multiple.pyx (text) -/
-def facts : List (String × String) := [("gapped.gapChar", "-"), ("gapped.test", "NotEq -1"), ("trace_from_strings.guard", "Lt 2 ValueError"), ("trace_from_strings.gapTest", "Eq '-'"), ("trace_from_strings.increment", "1"), ("get_codes.dtype", "np.int64"), ("get_codes.gapFill", "np.int64(-1)"), ("get_symbols.alphabet", "alignment.sequences[i].get_alphabet()|per-row"), ("get_sequence_identity.defaults", "mode='not_terminal'"), ("get_sequence_identity.modes", "'all','not_terminal','shortest'"), ("get_sequence_identity.guards", "stop LtE start ValueError"), ("get_sequence_identity.raises", "ValueError,ValueError"), ("get_pairwise_sequence_identity.defaults", "mode='not_terminal'"), ("get_pairwise_sequence_identity.modes", "'all','not_terminal','shortest'"), ("get_pairwise_sequence_identity.guards", "stop LtE start ValueError"), ("get_pairwise_sequence_identity.raises", "ValueError,ValueError"), ("get_sequence_identity.match", "len(unique_symbols) == 1 and unique_symbols[0] != -1"), ("score.defaults", "gap_penalty=-10;terminal_penalty=True"), ("score.lookup", "column[i],column[j]"), ("score.innerRange", "range(i + 1, codes.shape[0])"), ("score.raises", "TypeError"), ("score.gapOrder", "gap_ext,gap_open"), ("find_terminal_gaps.firsts", "pos[0] if len>0 else trace.shape[0]"), ("find_terminal_gaps.lasts", "pos[-1] if len>0 else -1"), ("find_terminal_gaps.result", "max,min+1"), ("remove_terminal_gaps.guard", "stop Lt start ValueError"), ("remove_gaps.mask", "(alignment.trace != -1).all(axis=1)"), ("getitem.raises", "IndexError,IndexError,IndexError"), ("getitem.integralChecks", "3"), ("get_alignment.defaults", "additional_gap_chars=('_',);seq_type=None"), ("get_alignment.replace", "seq_str.replace('-', '');seq_str.replace(char, '-')"), ("get_alignment.loops", "additional_gap_chars;enumerate(seq_strings)"), ("set_alignment.guard", "len(gapped_seq_strings) NotEq len(seq_names) ValueError"), ("align_multiple.defaults", "gap_penalty=-10;terminal_penalty=True;distances=None;guide_tree=None"), ("align_multiple.reorder", "np.argsort(order)"), ("align_multiple.pick", "[aligned_seqs[pos] for pos in new_order]"), ("align_multiple.traceReorder", "trace[:,new_order]"), ("align_multiple.gapCode", "new_alphabet.encode(gap_symbol)"), ("align_multiple.gapTest", "== -1"), ("align_multiple.strip", "code[code!=gap_symbol_code]"), ("progressive.leaf", "[sequences[tree_node.index].copy()]"), ("progressive.traceColumns", "aligned_seqs1:0;aligned_seqs2:1"), ("progressive.concat", "np.append(incides1,incides2);aligned_seqs1+aligned_seqs2"), ("progressive.children", "child1,child2=tree_node.children"), ("replace_gaps.branches", "== -1 gap_symbol_code seq_code[index]"), ("distance.scoreMax", "(scores_v[i,i]+scores_v[j,j])/2.0"), ("distance.guard", "scores_v[i,j] < score_rand ValueError"), ("distance.formula", "-log((scores_v[i,j]-score_rand)/(score_max-score_rand))"), ("distance.randDivisor", "alignments[i,j].trace.shape[0]"), ("distance.gapTerms", "gap_open_count*gap_open;gap_ext_count*gap_ext")]
+def facts : List (String × String) := [("gapped.gapChar", "-"), ("gapped.test", "gap iff index == -1"), ("trace_from_strings.guard", "Lt 2 ValueError"), ("trace_from_strings.gapTest", "Eq '-'"), ("trace_from_strings.increment", "1"), ("get_codes.dtype", "np.int64"), ("get_codes.gapFill", "np.int64(-1)"), ("get_symbols.alphabet", "alignment.sequences[k].get_alphabet()|per-row"), ("get_sequence_identity.defaults", "mode='not_terminal'"), ("get_sequence_identity.modes", "'all','not_terminal','shortest'"), ("get_sequence_identity.guards", "stop LtE start ValueError"), ("get_sequence_identity.raises", "ValueError,ValueError"), ("get_pairwise_sequence_identity.defaults", "mode='not_terminal'"), ("get_pairwise_sequence_identity.modes", "'all','not_terminal','shortest'"), ("get_pairwise_sequence_identity.guards", "stop LtE start ValueError"), ("get_pairwise_sequence_identity.raises", "ValueError,ValueError"), ("get_sequence_identity.match", "one symbol in the column and not -1"), ("score.defaults", "gap_penalty=-10;terminal_penalty=True"), ("score.lookup", "matrix[earlier,later]"), ("score.pairs", "every unordered pair once (earlier < later)"), ("score.raises", "TypeError"), ("score.gapOrder", "ext,open"), ("find_terminal_gaps.start", "max(pos[0] if len Gt 0 else ncols)+0"), ("find_terminal_gaps.stop", "min(pos[-1] if len Gt 0 else -1)+1"), ("remove_terminal_gaps.guard", "stop Lt start ValueError"), ("remove_gaps.mask", "columns without any -1"), ("getitem.raises", "IndexError"), ("getitem.integerTest", "numbers.Integral in the 1-D and the 2-D branch"), ("get_alignment.defaults", "additional_gap_chars=('_',);seq_type=None"), ("get_alignment.replace", "'-','';char,'-'"), ("get_alignment.loops", "outer=additional_gap_chars;inner=strings"), ("set_alignment.guard", "len(rows) NotEq len(seq_names) ValueError"), ("align_multiple.defaults", "gap_penalty=-10;terminal_penalty=True;distances=None;guide_tree=None"), ("align_multiple.reorder", "np.argsort(order)"), ("align_multiple.pick", "[aligned_seqs[pos] for pos in new_order]"), ("align_multiple.traceReorder", "trace[:,new_order]"), ("align_multiple.gapCode", "new_alphabet.encode(gap_symbol)"), ("align_multiple.gapTest", "== -1"), ("align_multiple.strip", "code[code!=gap_symbol_code]"), ("progressive.leaf", "[sequences[tree_node.index].copy()]"), ("progressive.traceColumns", "aligned_seqs1:0;aligned_seqs2:1"), ("progressive.concat", "np.append(incides1,incides2);aligned_seqs1+aligned_seqs2"), ("progressive.children", "child1,child2=tree_node.children"), ("replace_gaps.branches", "== -1 gap_symbol_code seq_code[index]"), ("distance.scoreMax", "(scores_v[i,i]+scores_v[j,j])/2.0"), ("distance.guard", "scores_v[i,j] < score_rand ValueError"), ("distance.formula", "-log((scores_v[i,j]-score_rand)/(score_max-score_rand))"), ("distance.randDivisor", "alignments[i,j].trace.shape[0]"), ("distance.gapTerms", "gap_open_count*gap_open;gap_ext_count*gap_ext")]
 end BiotiteModel.Gen.C11
